@@ -10,6 +10,10 @@ OPT_NOTE = ("Trusted: Coq 8.16.1 kernel (vm_compute, no native_compute); extract
             "bit-identical parameter vectors at every State::score() call and return the same state).")
 
 ENGINES = [
+    {"name": "tables", "path": "harness/src/dump.rs + bin/gen.py + coq/gen/*.v + coq/model/Spec.v",
+     "serves_properties": ["C16", "C10", "C04", "C08"],
+     "kind_free_text": "regeneration of the data-like model parts (group tables, handle bounds, JSON schema) from the running code; "
+                       "finite facts decided by vm_compute"},
     {"name": "opt", "path": "harness/src/opt.rs + ocaml/engine_opt.ml + coq/model/Optimiser.v",
      "serves_properties": ["C05", "C06", "C07", "C18", "C19", "C20"],
      "kind_free_text": "bit-exact correspondence of the extracted Coq optimiser model with MCOptimiser::optimise_state "
@@ -21,6 +25,16 @@ NOTES = ("Every claimed check = (1) proof gate: full coqc build of coq/props/<id
          "current working tree; (3) direct monitors that search for a concrete failing input.  See DESIGN.md.")
 
 CLAIMS = {
+    "C16": dict(
+        engine="tables", design_ref="DESIGN.md section 4 C16",
+        technique="model regenerated from the running code + vm_compute over the complete finite domain + Coq proof of metric invariance for all cells",
+        text="coq/gen/GenTables.v is regenerated on every run from what get_wallpaper_group + WyckoffSite::new return now. "
+             "Theorems: the tables equal, entry by entry, the general positions of plane groups 1,2,3,4,6,7,8 typed in "
+             "independently from International Tables A; those are groups modulo Z^2 (identity, closure, inverses, order, "
+             "mirror/glide/two-fold content; all pairs, decided completely by vm_compute); every operation preserves every "
+             "cell metric of the paired crystal family (proved for all A,B,C), and the rectangular groups need that family.",
+        note="Trusted: Coq kernel incl. vm_compute; `vharness dump` + bin/gen.py (regeneration; exact f64 -> rational "
+             "conversion in Python); model/Spec.v as typed in from ITA."),
     "C05": dict(
         engine="opt", design_ref="DESIGN.md section 4 C05",
         technique="Coq proof on IEEE binary64 (Flocq model of primitive floats) + induction over the run + bit-exact replay",
@@ -70,4 +84,4 @@ CLAIMS = {
 
 _NOT_YET = "not claimed yet: the model/theorems/engine for this property are still being built (see DESIGN.md section 7)"
 NOT_APPLICABLE = {p: _NOT_YET for p in
-                  ["C01", "C02", "C03", "C04", "C08", "C09", "C10", "C11", "C12", "C13", "C14", "C15", "C16", "C17"]}
+                  ["C01", "C02", "C03", "C04", "C08", "C09", "C10", "C11", "C12", "C13", "C14", "C15", "C17"]}
